@@ -75,6 +75,13 @@ HISTORIES = {
         "script": [("open", "main.oal", 'use "m.oal";\nres / on get -> <t>;\n'), ("open", "m.oal", "let t = {;\n"), ("sync", "main.oal"), ("close", "m.oal")],
         "probe": ("main.oal", {"line": 1, "character": 18}),
     },
+    "delete-an-astral-character-inside-a-line": {
+        "disk": {"main.oal": "res / on get -> <{}>;\n"},
+        "script": [("open", "main.oal", 'let tag = "ok\U0001F609";\nres / on get -> <status=200, media=tag, {}>;\n'), ("sync", "main.oal"),
+                   ("change", "main.oal", [(R(0, 13, 0, 15), "")]), ("sync", "main.oal"),
+                   ("change", "main.oal", [(R(0, 11, 0, 13), "\U0001F600\U0001F600"), (R(0, 11, 0, 13), "a")])],
+        "probe": ("main.oal", {"line": 1, "character": 35}),
+    },
     "compile-error-after-a-good-state": {
         "disk": {"main.oal": "res / on get -> <{}>;\n"},
         "script": [("open", "main.oal", "let a = { 'x num };\nlet b = a;\nres /r on get -> <b>;\n"), ("sync", "main.oal"),
@@ -94,6 +101,70 @@ HISTORIES = {
         "probe": ("main.oal", {"line": 1, "character": 18}),
     },
 }
+
+
+def random_histories(n):
+    """Histories drawn with VERIF_SEED over a two-file workspace: opens, incremental edits at valid UTF-16 positions
+    (multi-byte characters, CRLF, insertions at the end), closes, interleaved requests. The client-side texts are kept
+    with lspdrv.apply_edit; the final texts go to a fresh server."""
+    import random
+    import lspdrv
+    from vcommon import seed as vseed
+    rnd = random.Random(7700 + vseed())
+    MAINS = ['use "m.oal" as m;\nlet a = m.t;\nres / on get -> <a>;\n', "let a = num; // \U0001F600 é\r\nlet b = [a];\r\nres / on get -> <b>;\r\n",
+             'use "m.oal";\nlet w = { \'t t, \'n num };\nres /w on get -> <w> :: <status=404, t>;\n', "let a = { 'x num };\nlet b = a;\nres /r on get -> <b>;"]
+    MODS = ["let t = {};\n", "let t = { 'k str }; // 中文\n", "let t = {;\n", "let t = num & {};\n", "// only a comment\r\nlet t = [str];"]
+    INS = ["", " ", "x", "é", "\U0001F600", "\n", "\r\n", "let z = str;\n", "nope", "{", "}", ";", "// c\n", "m.", "a"]
+
+    def positions(text):
+        out = []
+        for li, line in enumerate(text.split("\n")):
+            body = line[:-1] if line.endswith("\r") else line
+            col = 0
+            out.append((li, 0))
+            for ch in body:
+                col += 2 if ord(ch) > 0xFFFF else 1
+                out.append((li, col))
+        return out
+    hist = {}
+    for k in range(n):
+        disk = {"main.oal": rnd.choice(MAINS), "m.oal": rnd.choice(MODS)}
+        texts, script = {}, []
+        for step in range(rnd.randint(3, 8)):
+            fn = rnd.choice(["main.oal", "main.oal", "m.oal"])
+            if fn not in texts:
+                t = rnd.choice(MAINS if fn == "main.oal" else MODS) if rnd.random() < 0.5 else disk[fn]
+                texts[fn] = t
+                script.append(("open", fn, t))
+            else:
+                r = rnd.random()
+                if r < 0.15:
+                    del texts[fn]
+                    script.append(("close", fn))
+                elif r < 0.25:
+                    t = rnd.choice(MAINS if fn == "main.oal" else MODS)
+                    texts[fn] = t
+                    script.append(("change", fn, [(None, t)]))
+                else:
+                    changes = []
+                    for _ in range(rnd.randint(1, 3)):
+                        ps = positions(texts[fn])
+                        i = rnd.randrange(len(ps))
+                        j = min(len(ps) - 1, i + rnd.choice([0, 0, 1, 2, 5]))
+                        rng = R(ps[i][0], ps[i][1], ps[j][0], ps[j][1])
+                        new = rnd.choice(INS)
+                        texts[fn] = lspdrv.apply_edit(texts[fn], rng, new)
+                        changes.append((rng, new))
+                    script.append(("change", fn, changes))
+            if rnd.random() < 0.5:
+                script.append(("sync", "main.oal"))
+        if "main.oal" not in texts:
+            texts["main.oal"] = disk["main.oal"]
+            script.append(("open", "main.oal", disk["main.oal"]))
+        ps = positions(texts["main.oal"])
+        pr = ps[rnd.randrange(len(ps))]
+        hist["drawn-%d-%d" % (vseed(), k)] = {"disk": disk, "script": script, "probe": ("main.oal", {"line": pr[0], "character": pr[1]})}
+    return hist
 
 
 def run_histories(tag="histories"):
@@ -140,8 +211,10 @@ def run_histories(tag="histories"):
 
         return mism, detail
 
+    hs = dict(HISTORIES)
+    hs.update(random_histories(40 if tier() == "thorough" else 4))
     with cf.ThreadPoolExecutor(max_workers=8) as pool_:
-        for m_, d_ in pool_.map(one, list(HISTORIES.items())):
+        for m_, d_ in pool_.map(one, list(hs.items())):
             mism += m_
             detail.update(d_)
     with open(os.path.join(rdir, "cmd"), "w") as f:
